@@ -275,10 +275,12 @@ def gen_case(rng, nops, version):
             pgname = rng.below(3)
             pg = led.pg_by_name(h, pgname)
             dep = led.depth_of(pg) if pg is not None else None
-            name = rng.below(4)
+            used = led.names(h) | {led.renamed[d] for d in led.hole_data(h) if d in led.renamed}
+            free = [j for j in range(4) if 100 + j not in used]
+            name = rng.choice(free) if free and rng.chance(93) else rng.below(4)
             if dep is None:
                 n = rng.choice(LENS)
-                m = n if rng.chance(70) else (rng.below(n + 1) if rng.chance(85) else n + 1)
+                m = n if rng.chance(70) else (rng.below(n + 1) if rng.chance(90) else n + 1)
                 # the library numbers depth names by the count of depth groups; when that name is taken the add is refused
                 k = sum(1 for p in led.holes[h]["pgs"] if led.depth_of(p) is not None)
                 taken = (10 + k) in led.names(h)
@@ -288,6 +290,11 @@ def gen_case(rng, nops, version):
                       "depth": [1000 * (pgname + 1) + i for i in range(n)], "vals": _vals(rng, m, 0)}
                 if rng.chance(4):
                     op["depth"] = None  # no depth and nothing to take it from
+                if taken and led.expected_error(op) is None:
+                    # known defect: the add is refused and leaves the (new) group empty; keep the generator's picture in step
+                    ops.append(op)
+                    led.apply({"op": "add_pg", "h": h, "pg": pgname, "pgid": op["pgid"]})
+                    continue
                 emit(op)
                 if op["depid"] in led.data and led.data[op["depid"]]["name"] is None:
                     led.data[op["depid"]]["name"] = 10 + k   # the name the library will pick (generator-side prediction only)
@@ -352,6 +359,10 @@ def _num(x):
     return {"float": x}
 
 
+class _NoEntity(Exception):
+    pass
+
+
 class _Drv:
     def __init__(self, case, work):
         self.case = case
@@ -382,21 +393,21 @@ class _Drv:
     # ---- entity lookup
     def hole(self, h):
         for c in self.g.children:
-            if c.uid == self.uid_of[h]:
+            if c.uid == self.uid_of.get(h):
                 return c
-        raise LookupError(f"hole {h}")
+        raise _NoEntity(f"hole {h}")
 
     def data(self, h, d):
         for c in self.hole(h).children:
-            if c.uid == self.uid_of[d] and hasattr(c, "values"):
+            if c.uid == self.uid_of.get(d) and not hasattr(c, "properties"):
                 return c
-        raise LookupError(f"data {d}")
+        raise _NoEntity(f"data {d}")
 
     def pg(self, h, p):
         for c in self.hole(h).property_groups or []:
-            if c.uid == self.uid_of[p]:
+            if c.uid == self.uid_of.get(p):
                 return c
-        raise LookupError(f"group {p}")
+        raise _NoEntity(f"group {p}")
 
     def load_all(self):
         from geoh5py.objects import Drillhole
@@ -460,7 +471,7 @@ class _Drv:
             else:
                 kind = "?"
             out.append({
-                "id": rid, "kind": kind, "name": r.get("Name"),
+                "id": rid, "kind": kind, "name": r.get("Group Name") if kind == "pg" else r.get("Name"),
                 "props": [[k[len("Property:"):].replace("⁄", "/"), self.num(v)] for k, v in r.items() if k.startswith("Property:")],
                 "members": [self.num(x) for x in r.get("Properties", [])] if kind == "pg" else [],
             })
@@ -468,6 +479,7 @@ class _Drv:
 
     def snapshot(self, tables=True):
         import numpy as np
+        from geoh5py.data import Data
         from geoh5py.objects import Drillhole
 
         g = self.g
@@ -494,7 +506,7 @@ class _Drv:
             sv = g.fetch_values(hole, "surveys")
             vals.append(["Surveys", hn, 0, None if sv is None else [_num(x) for x in sv["Depth"].tolist()]])
             for c in hole.children:
-                if hasattr(c, "values") and hasattr(c, "association"):
+                if isinstance(c, Data):
                     v = self.ws.fetch_values(c)
                     vals.append([c.name, hn, self.num(c.uid), None if v is None else [_num(x) for x in np.asarray(v, dtype=float).tolist()]])
         attrs = g.concatenated_attributes["Attributes"] if g.concatenated_attributes else []
@@ -620,8 +632,8 @@ class _Drv:
                     continue
                 try:
                     self.run_op(op)
-                except LookupError as e:
-                    step["hard"] = "LookupError"
+                except _NoEntity as e:
+                    step["hard"] = "NoEntity"
                     step["msg"] = str(e)[:200]
                     steps.append(step)
                     break
